@@ -97,8 +97,9 @@ class do_release(ContractBase):
 
 @contract(W, 'dawgie/db/shelve/comms.py', 'Worker.connectionLost', props=['C13'])
 class connection_lost(ContractBase):
-    params = {'self': DBW, 'reason': ATOM}
+    params = {'self': DBW, 'reason': Ref('Failure')}      # whatever the reason: clean close (ConnectionDone) or not
     modifies = [LOCK] + STATE_FIELDS
+    methods = {('Failure', 'check'): lambda ex, r, a, k, l: V(z3.Function('failure_is_a', Ref('Failure').sort(), z3.BoolSort())(r.t), BOOL)}
 
     def requires(c):
         return {'L': L(c.old)}
